@@ -125,7 +125,7 @@ def check(repo: Repo, R) -> None:
         for lab, e in cands:
             ok, detail = is_fresh(e, mod, defs, fi, c)
             R.check(ok, rule, key_of(fi, f"{ast.unparse(c)[:60]}::{lab}"), fi.at(c), f"`{ast.unparse(c)[:80]}` — {lab}: {detail}", why=why)
-    R.floor(rule, 6)
+    R.floor(rule, 5)  # 6 on the reference tree; two sites may legitimately share one flatname call
 
     # ---- flatname only returns checked names
     rule2 = "C05.2-flatname-checks-before-return"
